@@ -38,6 +38,7 @@ inductive B where
   | decimal | integer | nonPositiveInteger | negativeInteger | long | int | short | byte
   | nonNegativeInteger | unsignedLong | unsignedInt | unsignedShort | unsignedByte | positiveInteger
   | double | date | anyURI
+  | dateTime | gYear | gYearMonth
   deriving DecidableEq, Repr, Inhabited
 
 namespace B
@@ -45,7 +46,7 @@ namespace B
 def all : List B := [anyType, anySimpleType, anyAtomicType, untypedAtomic, string, normalizedString,
   token, boolean, decimal, integer, nonPositiveInteger, negativeInteger, long, int, short, byte,
   nonNegativeInteger, unsignedLong, unsignedInt, unsignedShort, unsignedByte, positiveInteger,
-  double, date, anyURI]
+  double, date, anyURI, dateTime, gYear, gYearMonth]
 
 def lname : B → String
   | anyType => "anyType" | anySimpleType => "anySimpleType" | anyAtomicType => "anyAtomicType"
@@ -56,6 +57,7 @@ def lname : B → String
   | nonNegativeInteger => "nonNegativeInteger" | unsignedLong => "unsignedLong"
   | unsignedInt => "unsignedInt" | unsignedShort => "unsignedShort" | unsignedByte => "unsignedByte"
   | positiveInteger => "positiveInteger" | double => "double" | date => "date" | anyURI => "anyURI"
+  | dateTime => "dateTime" | gYear => "gYear" | gYearMonth => "gYearMonth"
 
 def xsdNs : String := "http://www.w3.org/2001/XMLSchema"
 /-- expanded (Clark) name, as `xsd_type.name` -/
@@ -68,7 +70,8 @@ def base : B → Option B
   | anyType => none
   | anySimpleType => some anyType
   | anyAtomicType => some anySimpleType
-  | untypedAtomic | string | boolean | decimal | double | date | anyURI => some anyAtomicType
+  | untypedAtomic | string | boolean | decimal | double | date | anyURI
+  | dateTime | gYear | gYearMonth => some anyAtomicType
   | normalizedString => some string
   | token => some normalizedString
   | integer => some decimal
@@ -91,6 +94,27 @@ def ancestors (b : B) : List B := up 10 b
 
 /-- `a` is `b` or derived from `b` -/
 def derives (a b : B) : Bool := (ancestors a).contains b
+
+/-- class name of the prototype value in `decoder._ATOMIC_VALUES[version]` (decoder.py:30-92):
+the date-like types have XSD 1.0 classes (`…10`, no year 0000, proleptic years shifted) and XSD 1.1
+classes; `v11` = the schema is an XSD 1.1 schema -/
+def protoClass (v11 : Bool) : B → String
+  | anyType | anySimpleType | anyAtomicType | untypedAtomic => "UntypedAtomic"
+  | string => "str" | normalizedString => "NormalizedString" | token => "XsdToken"
+  | boolean => "bool" | decimal => "Decimal" | integer => "Integer"
+  | nonPositiveInteger => "NonPositiveInteger" | negativeInteger => "NegativeInteger"
+  | long => "Long" | int => "Int" | short => "Short" | byte => "Byte"
+  | nonNegativeInteger => "NonNegativeInteger" | unsignedLong => "UnsignedLong"
+  | unsignedInt => "UnsignedInt" | unsignedShort => "UnsignedShort" | unsignedByte => "UnsignedByte"
+  | positiveInteger => "PositiveInteger" | double => "float" | anyURI => "AnyURI"
+  | date => if v11 then "Date" else "Date10"
+  | dateTime => if v11 then "DateTime" else "DateTime10"
+  | gYear => if v11 then "GregorianYear" else "GregorianYear10"
+  | gYearMonth => if v11 then "GregorianYearMonth" else "GregorianYearMonth10"
+
+def isDateLike : B → Bool
+  | date | dateTime | gYear | gYearMonth => true
+  | _ => false
 
 def isSpecial : B → Bool
   | anyType | anySimpleType | anyAtomicType => true
@@ -215,24 +239,53 @@ def isPySpecial (s : String) : Bool :=
 def isXsdDouble (s : String) : Bool :=
   isPyFinite s || s == "INF" || s == "-INF" || s == "+INF" || s == "NaN"
 
+def isTzLex (tz : List Char) : Bool :=
+  tz.isEmpty || tz == ['Z'] ||
+  (match tz with
+   | [sg, h1, h2, ':', n1, n2] => (sg == '+' || sg == '-') && allDigits [h1, h2, n1, n2]
+   | _ => false)
+
+/-- `-?YYYY…` year part (at least four digits); returns the rest -/
+def yearRest (cs : List Char) : Option (List Char) :=
+  let cs := match cs with | '-' :: r => r | r => r
+  let y := cs.takeWhile (fun c => (digitVal? c).isSome)
+  -- four digits, or more without a leading zero; `abs(year) > 2 ** 31` raises OverflowError
+  let shapeOk := y.length == 4 || (y.length > 4 && y.head? != some '0')
+  match natOfDigits? y with
+  | some v => if shapeOk && v ≤ 2147483647 then some (cs.drop y.length) else none
+  | none => none
+
+def twoDigitsIn (a b : Char) (lo hi : Nat) : Bool :=
+  match natOfDigits? [a, b] with
+  | some v => lo ≤ v && v ≤ hi
+  | none => false
+
 /-- `-?YYYY-MM-DD` with optional timezone, shape only -/
 def isDateLex (s : String) : Bool :=
-  let cs := s.toList
-  let cs := match cs with | '-' :: r => r | r => r
-  let y := cs.takeWhile (· != '-')
-  let r := cs.dropWhile (· != '-')
-  y.length ≥ 4 && allDigits y &&
-  (match r with
-   | '-' :: m1 :: m2 :: '-' :: d1 :: d2 :: tz =>
-      allDigits [m1, m2, d1, d2] &&
-      (match natOfDigits? [m1, m2], natOfDigits? [d1, d2] with
-       | some m, some d => 1 ≤ m && m ≤ 12 && 1 ≤ d && d ≤ 31
-       | _, _ => false) &&
-      (tz.isEmpty || tz == ['Z'] ||
-       (match tz with
-        | [sg, h1, h2, ':', n1, n2] => (sg == '+' || sg == '-') && allDigits [h1, h2, n1, n2]
-        | _ => false))
-   | _ => false)
+  match yearRest s.toList with
+  | some ('-' :: m1 :: m2 :: '-' :: d1 :: d2 :: tz) => twoDigitsIn m1 m2 1 12 && twoDigitsIn d1 d2 1 31 && isTzLex tz
+  | _ => false
+
+/-- `-?YYYY-MM-DDThh:mm:ss(.s+)?` with optional timezone, shape only -/
+def isDateTimeLex (s : String) : Bool :=
+  match yearRest s.toList with
+  | some ('-' :: m1 :: m2 :: '-' :: d1 :: d2 :: 'T' :: h1 :: h2 :: ':' :: n1 :: n2 :: ':' :: s1 :: s2 :: r) =>
+    twoDigitsIn m1 m2 1 12 && twoDigitsIn d1 d2 1 31 && twoDigitsIn h1 h2 0 24 && twoDigitsIn n1 n2 0 59 &&
+    twoDigitsIn s1 s2 0 59 &&
+    (match r with
+     | '.' :: f => let fr := f.takeWhile (fun c => (digitVal? c).isSome); !fr.isEmpty && isTzLex (f.drop fr.length)
+     | tz => isTzLex tz)
+  | _ => false
+
+def isGYearLex (s : String) : Bool :=
+  match yearRest s.toList with
+  | some tz => isTzLex tz
+  | none => false
+
+def isGYearMonthLex (s : String) : Bool :=
+  match yearRest s.toList with
+  | some ('-' :: m1 :: m2 :: tz) => twoDigitsIn m1 m2 1 12 && isTzLex tz
+  | _ => false
 
 /-! ## atomic values -/
 
@@ -267,9 +320,18 @@ def pyDecode (b : B) (s : String) : Option Atom :=
   | .double =>                                                     -- float(s)
     let t := strip s
     if isPyFinite t || isPySpecial t then some ⟨.double, t⟩ else none
-  | .date =>                                                       -- Date10.fromstring(s)
+  | .date =>                                                       -- Date10/Date.fromstring(s)
     let t := strip s
     if isDateLex t then some ⟨.date, t⟩ else none
+  | .dateTime =>
+    let t := strip s
+    if isDateTimeLex t then some ⟨.dateTime, t⟩ else none
+  | .gYear =>
+    let t := strip s
+    if isGYearLex t then some ⟨.gYear, t⟩ else none
+  | .gYearMonth =>
+    let t := strip s
+    if isGYearMonthLex t then some ⟨.gYearMonth, t⟩ else none
   | b =>                                                           -- Integer subclasses: int(s) + bounds
     match intOfLex? (strip s) with
     | some v => if b.inBounds v then some ⟨b, toString v⟩ else none
@@ -733,6 +795,52 @@ def attrTypedValue (a : AttrNode) : TV :=
   match a.type with
   | none => .ok [⟨.untypedAtomic, a.value⟩]
   | some t => atomicSequence t a.value
+
+/-! ## the proxy's own state (`AbstractSchemaProxy`, schema_proxy.py:27-74)
+
+The proxy object is long-lived: one proxy may serve many contexts, instances and expressions, while
+the schema it wraps goes from *not built* (`validity = notKnown`) to *built and valid*.  Its only
+state is `_is_fully_valid`, which caches a POSITIVE answer only (`is_fully_valid()` recomputes as
+long as the flag is false; `validity`/`validation_attempted` reset it). -/
+
+structure Proxy where
+  /-- `_is_fully_valid` -/
+  flag : Bool
+  deriving Repr, DecidableEq, Inhabited
+
+/-- a freshly constructed proxy (`self._is_fully_valid = False`) -/
+def Proxy.fresh : Proxy := ⟨false⟩
+
+/-- `is_fully_valid()`; `valid` = the wrapped schema is currently built, valid and fully validated -/
+def Proxy.isFullyValid (p : Proxy) (valid : Bool) : Bool × Proxy :=
+  if p.flag then (true, p) else (valid, ⟨valid⟩)
+
+/-- `apply_schema` when `not schema.is_fully_valid()` (xpath_nodes.py:1203-1210): every element gets
+`xs:anyType`, `xsd_element` stays cleared -/
+def anyTypeAll : Forest Unit → Forest Ann :=
+  Forest.map (fun _ => ⟨some (.simple (.builtin .anyType)), none⟩)
+
+def applySchemaV (fv : Bool) (s : Schema) (t : Forest Unit) : Forest Ann :=
+  if fv then applySchema s t else anyTypeAll t
+
+/-- `attributes` when the schema is not fully valid (xpath_nodes.py:1109-1113): `xs:anySimpleType` -/
+def attrNodesV (fv : Bool) (s : Schema) (a : Ann) (attrs : List (String × String)) : List AttrNode :=
+  if fv then attrNodes s a attrs else
+  match a.xsdType with
+  | none => attrs.map fun (n, v) => (⟨n, v, none, false⟩ : AttrNode)
+  | some _ => attrs.map fun (n, v) => (⟨n, v, some (.builtin .anySimpleType), false⟩ : AttrNode)
+
+/-- one evaluation through a long-lived proxy -/
+def evalStep (s : Schema) (p : Proxy) (valid : Bool) (t : Forest Unit) : Forest Ann × Proxy :=
+  let (fv, p') := p.isFullyValid valid
+  (applySchemaV fv s t, p')
+
+/-- a history of evaluations through ONE proxy: each step gives the schema's state and an instance -/
+def runHistory (s : Schema) : Proxy → List (Bool × Forest Unit) → List (Forest Ann)
+  | _, [] => []
+  | p, (valid, t) :: rest =>
+    let (a, p') := evalStep s p valid t
+    a :: runHistory s p' rest
 
 /-! ## node selection (a path evaluator over the same trees)
 
